@@ -64,7 +64,10 @@ def derived_histories(ctx, res):
         minv = None
         for hi in range(nhist):
             # pool entries: (label, operator, expected matrix or None if never asked, weak form object or None)
-            pool = [[name, op, base[name].copy(), None] for name, op in leaves]
+            # entry: [label, operator, expected matrix, weak form object or None, magnitude]; the magnitude is the size of the
+            # OPERANDS (|a| + |b| for sums, ...), so that an operator whose expected matrix cancels to zero
+            # (`S + -(S * I)`) is compared on the scale of what was added, not of the rounding noise that is left
+            pool = [[name, op, base[name].copy(), None, float(np.max(np.abs(base[name])))] for name, op in leaves]
             steps = []
             # the first history is the fixed one of seed C18-d: S = A + B; T = S + C; look at S, U = S - C, T again
             n0 = len(leaves)
@@ -82,18 +85,20 @@ def derived_histories(ctx, res):
                 c = None
                 try:
                     if kind == "add":
-                        new, exp, lab = a[1] + b[1], a[2] + b[2], f"({a[0]}+{b[0]})"
+                        new, exp, lab, mag = a[1] + b[1], a[2] + b[2], f"({a[0]}+{b[0]})", a[4] + b[4]
                     elif kind == "sub":
-                        new, exp, lab = a[1] - b[1], a[2] - b[2], f"({a[0]}-{b[0]})"
+                        new, exp, lab, mag = a[1] - b[1], a[2] - b[2], f"({a[0]}-{b[0]})", a[4] + b[4]
                     elif kind == "scal":
                         c = rng.choice([2.0, -0.5, 0.25, 1j, 1.5 - 0.5j])
-                        new, exp, lab = c * a[1], c * a[2], f"{c}*{a[0]}"
+                        new, exp, lab, mag = c * a[1], c * a[2], f"{c}*{a[0]}", abs(c) * a[4]
                     elif kind == "neg":
-                        new, exp, lab = -a[1], -a[2], f"-{a[0]}"
+                        new, exp, lab, mag = -a[1], -a[2], f"-{a[0]}", a[4]
                     else:
                         if minv is None:
                             minv = np.linalg.inv(base["ident"])
                         new, exp, lab = a[1] * b[1], a[2] @ minv @ b[2], f"({a[0]}*{b[0]})"
+                        n_ = minv.shape[0]
+                        mag = n_ * n_ * a[4] * float(np.max(np.abs(minv))) * b[4]
                 except Exception as e:  # noqa: BLE001
                     res.counterexample("history-dependent-derived-operator-raises",
                                        f"combining operators raised {type(e).__name__}: {e}", space=sname,
@@ -101,7 +106,7 @@ def derived_histories(ctx, res):
                     break
                 if len(lab) > 120:
                     lab = f"op{len(pool)}"
-                pool.append([lab, new, exp, None])
+                pool.append([lab, new, exp, None, mag])
                 steps.append([kind, i, j] + ([str(c)] if c is not None else []))
                 # assemble the new operator, then look at EVERY operator created so far
                 bad = None
@@ -119,7 +124,7 @@ def derived_histories(ctx, res):
                         break
                     ent[3] = wf
                     M = _dense(wf)
-                    scale = max(1e-300, float(np.max(np.abs(ent[2]))))
+                    scale = max(1e-300, ent[4])
                     d = float(np.max(np.abs(M - ent[2]))) / scale if M.shape == ent[2].shape else float("inf")
                     if d > TOL:
                         bad = (q, f"its matrix differs from the NumPy expression of the leaf matrices by {d:.3e} relative")
